@@ -202,3 +202,42 @@ Theorem C05_stored_content_length_kept : forall iri join cur r h x,
   hd_getlist h CONTENT_LENGTH = [x].
 Proof. exact stored_content_length_kept. Qed.
 Print Assumptions C05_stored_content_length_kept.
+
+(* ------------------------------------------------------------------ Response.stream *)
+(* ResponseStream.write (every write, not only the first): the value is appended to the buffered body, no
+   Content-Length header is left, every other header row is untouched *)
+Theorem C05_stream_write_drops_length : forall r v r',
+  stream_write r v = Some r' ->
+  hd_getlist (r_headers r') CONTENT_LENGTH = [] /\ last_value (r_headers r') CONTENT_LENGTH = None /\
+  body_bytes r' = body_bytes r ++ encode_item v /\ r_is_seq r' = true /\
+  (forall k, ci_eqb CONTENT_LENGTH k = false -> hd_getlist (r_headers r') k = hd_getlist (r_headers r) k).
+Proof. exact stream_write_drops_length. Qed.
+Print Assumptions C05_stream_write_drops_length.
+
+(* it is refused exactly for an unbuffered body in direct passthrough *)
+Theorem C05_stream_write_refusal : forall r v, stream_write r v = None <-> (r_is_seq r = false /\ r_passthrough r = true).
+Proof. exact stream_write_refusal. Qed.
+Print Assumptions C05_stream_write_refusal.
+
+(* so whatever length was stored or computed before (set_data, freeze, the application), the length the server is told
+   after a write is the number of body bytes as the body now stands *)
+Theorem C05_stream_write_served_length : forall iri join cur r v r' h,
+  clean (r_headers r) -> stream_write r v = Some r' -> r_auto_cl r = true -> bodyless false (r_code r) = false ->
+  get_wsgi_headers iri join cur r' = (h, None) ->
+  hd_getlist h CONTENT_LENGTH = [dec_of_Z (Z.of_nat (length (body_bytes r ++ encode_item v)))].
+Proof. exact stream_write_served_length. Qed.
+Print Assumptions C05_stream_write_served_length.
+
+(* write, set_data (length 5 stored), write again: no stale length, the body is the five bytes and the new one *)
+Example C05_stream_write_example :
+  let r0 := {| r_headers := []; r_code := 200%Z; r_line := []; r_body := [IBytes [97]]; r_is_seq := true; r_closable := false;
+               r_passthrough := false; r_auto_cl := true; r_autocorrect := false; r_callbacks := [] |} in
+  match stream_write r0 (IBytes [98]) with
+  | Some r1 => match stream_write (set_data r1 (IBytes [1; 2; 3; 4; 5])) (IBytes [6]) with
+               | Some r2 => hd_getlist (r_headers r2) CONTENT_LENGTH = [] /\ body_bytes r2 = [1; 2; 3; 4; 5; 6]
+               | None => False
+               end
+  | None => False
+  end.
+Proof. vm_compute. split; reflexivity. Qed.
+Print Assumptions C05_stream_write_example.
